@@ -31,7 +31,7 @@ ASSUMPTIONS = [
 ]
 
 ENGINES = ['pyindex', 'paths', 'grammar']
-TECHNIQUE = ('static analysis (ast): route table by path enumeration with clean/raw tracking of the text, keyword forwarding per hop, codec of every open() on the call closure of the '
+TECHNIQUE = ('static analysis (ast): route table by path enumeration with clean/raw tracking of the text, keyword forwarding per hop, codec and newline mode of every open() / read_text / read_bytes / codecs.open on the call closure of the '
              'routes; line-break tokens and regular-expression skippers of the grammar IR (a carriage return is skipped wherever a line break is accepted)')
 
 PARSER_MOD = 'pydbml.parser.parser'
